@@ -15,6 +15,42 @@ import (
 // comparison of model and code can see.  The fact is the inventory of package-level `var` declarations per package
 // (name and, in brief, type or initialiser); the theorems pin it to the inventory the models were written against.
 
+// globalRegistrations: calls that change process-wide tables of the libraries the code uses (handler tables, private
+// record types, default clients, random seeds).  Anything registered there is shared by every server, endpoint and
+// client object of the process.
+var globalRegFuncs = map[string]bool{
+	"dns.HandleFunc": true, "dns.Handle": true, "dns.HandleRemove": true, "dns.PrivateHandle": true, "dns.PrivateHandleRemove": true,
+	"http.Handle": true, "http.HandleFunc": true, "rand.Seed": true, "multistream.AddHandler": true,
+}
+
+func init() {
+	extractors = append(extractors, func(o *out) {
+		b := o.w("PkgVars.lean")
+		var regs []string
+		for _, dir := range []string{"internal/server", "internal/socketace", "internal/client/upstream", "internal/client/listener",
+			"internal/streams", "internal/streams/dns", "internal/streams/dns/commands", "internal/streams/dns/util", "internal/util/cert", "internal/util/enc"} {
+			for _, f := range goFiles(dir) {
+				af := parse(f)
+				if af == nil {
+					continue
+				}
+				ast.Inspect(af, func(n ast.Node) bool {
+					if c, ok := n.(*ast.CallExpr); ok && globalRegFuncs[src(c.Fun)] {
+						regs = append(regs, f+": "+src(c.Fun))
+					}
+					return true
+				})
+			}
+		}
+		sort.Strings(regs)
+		q := make([]string, len(regs))
+		for i, r := range regs {
+			q[i] = fmt.Sprintf("%q", r)
+		}
+		fmt.Fprintf(b, "/-- calls that register something in a process-wide table of a library (DNS / HTTP handler tables, private record types, …) -/\ndef globalRegistrations : List String := [%s]\n\n", strings.Join(q, ", "))
+	})
+}
+
 func varBrief(e ast.Expr) string {
 	s := strings.Join(strings.Fields(src(e)), " ")
 	if len(s) > 60 {
